@@ -170,6 +170,9 @@ func runStall(cs *Case) (*Obs, []evRec) {
 		add(evRec{kind: "unlock"})
 		return r
 	}
+	for k := 0; k < cs.Bulk; k++ {
+		e.apply(Op{W: -1, K: "upd", P: []string{"t1", "a", fmt.Sprintf("n%d", k)}, V: int64(k % 7), TS: 1})
+	}
 	for _, o := range cs.Ops {
 		if o.W == -1 {
 			apply(o, -1)
@@ -207,6 +210,15 @@ func runStall(cs *Case) (*Obs, []evRec) {
 				add(evRec{kind: "deq", i: i})
 			}
 			add(evRec{kind: "read", i: i, resp: r})
+			if cs.Bulk > 0 && cs.WalkStall == i {
+				// stalled during (or right after) its initial walk, to the end of the run
+				bmu.Lock()
+				stalls[i].blocked, stalls[i].forever = true, false
+				obs.Stalled[i] = 3
+				bmu.Unlock()
+				<-s.ctx.Done()
+				return s.ctx.Err()
+			}
 			if !phase2.Load() {
 				return nil
 			}
@@ -272,7 +284,7 @@ func runStall(cs *Case) (*Obs, []evRec) {
 			obs.Ended[i] = err != nil && e.streams[i].ctx.Err() == nil
 			emu.Unlock()
 		}()
-		if !waitParked(e, func(j int) bool { return j == i }, true) {
+		if !waitParked(e, func(j int) bool { return j == i }, !(cs.Bulk > 0 && cs.WalkStall == i)) {
 			obs.Bad = "subscriber did not reach its sync"
 		}
 		time.Sleep(quietFor) // after the sync marker (sent without the timer) nothing may be armed
@@ -298,8 +310,8 @@ func runStall(cs *Case) (*Obs, []evRec) {
 	releaseDue := func(all bool) bool {
 		bmu.Lock()
 		any := false
-		for _, ss := range stalls {
-			if !ss.blocked || ss.forever {
+		for si, ss := range stalls {
+			if !ss.blocked || ss.forever || (cs.Bulk > 0 && cs.WalkStall == si) {
 				continue
 			}
 			if !all {
@@ -484,6 +496,9 @@ func runStall(cs *Case) (*Obs, []evRec) {
 	if len(cs.Hidden) > 0 {
 		out = nil // ACL-denied responses are not in the transition system: K_P only
 	}
+	if cs.Bulk > 0 {
+		out = nil // thousands of leaves: judged by K_P only (a replay of the walk would take minutes)
+	}
 	return obs, out
 }
 
@@ -661,9 +676,27 @@ func (e *emitter) caseTerm(cs *Case, obs *Obs, log []evRec) string {
 		ended[i] = vh.Bool(x)
 	}
 	b.WriteString(vh.List(ended) + " ")
-	dump := make([]string, len(obs.Dump))
-	for i, l := range obs.Dump {
-		dump[i] = fmt.Sprintf("(%s, (%s, %s))", e.path(l.P), vh.Z(l.V), vh.Z(l.TS))
+	var dump []string
+	for _, l := range obs.Dump {
+		if cs.Bulk > 0 {
+			// thousands of leaves: only those a subscriber that is judged for convergence
+			// could be told about (compatible with one of its paths) are handed to Coq
+			keep := false
+			for i, sc := range cs.Subs {
+				if i < len(obs.Stalled) && obs.Stalled[i] == 3 {
+					continue
+				}
+				for _, q := range sc.Qs {
+					if compat(q, l.P) {
+						keep = true
+					}
+				}
+			}
+			if !keep {
+				continue
+			}
+		}
+		dump = append(dump, fmt.Sprintf("(%s, (%s, %s))", e.path(l.P), vh.Z(l.V), vh.Z(l.TS)))
 	}
 	b.WriteString(vh.List(dump) + " ")
 	deq := make([]string, len(cs.Subs))
@@ -876,6 +909,40 @@ func genACL(r *vh.Rand) *Case {
 	return cs
 }
 
+// genWalkStall: a large store; one subscriber is stalled during its initial walk over it (its
+// first Send never returns); a writer adds NEW leaves and deletes under the walked subtree,
+// updates other paths; the writer and the other subscribers must go on.
+func genWalkStall(r *vh.Rand, bulk int) *Case {
+	cs := &Case{Family: "walk-stall", Mode: "stall", ED: false, NW: 1, Seed: r.U64() % 1000000, TimeoutMs: 60000,
+		CancelSub: -1, Bulk: bulk, WalkStall: 2}
+	cs.Subs = []SubCfg{{Qs: [][]string{{"t1", "b"}}}, {Qs: [][]string{{"t1", "a", "n5"}, {"t1", "a", "new1"}}}, {Qs: [][]string{{"t1", "a"}}}}
+	if r.Chance(1, 2) {
+		cs.Subs[2] = SubCfg{Qs: [][]string{{"t1"}}}
+	}
+	cs.Stall = []int{0, 0, 0}
+	cs.Plan = [][]Block{nil, nil, nil}
+	ts := int64(2)
+	ops := []Op{
+		{W: 0, K: "upd", P: []string{"t1", "a", "new1"}, V: 1},
+		{W: 0, K: "del", P: []string{"t1", "a", fmt.Sprintf("n%d", 10+r.Intn(100))}},
+		{W: 0, K: "upd", P: []string{"t1", "b", "x"}, V: 2},
+		{W: 0, K: "upd", P: []string{"t1", "a", "n5"}, V: 9},
+		{W: 0, K: "upd", P: []string{"t1", "newroot", "y"}, V: 3},
+		{W: 0, K: "del", P: []string{"t1", "a", "new1"}},
+		{W: 0, K: "upd", P: []string{"t1", "a", "new1"}, V: 4},
+	}
+	for i := len(ops) - 1; i > 0; i-- { // seeded order
+		j := r.Intn(i + 1)
+		ops[i], ops[j] = ops[j], ops[i]
+	}
+	for _, o := range ops {
+		ts++
+		o.TS = ts
+		cs.Ops = append(cs.Ops, o)
+	}
+	return cs
+}
+
 func readCases(path string) []*Case {
 	b, err := os.ReadFile(path)
 	if err != nil {
@@ -935,6 +1002,13 @@ func main() {
 	}
 	for i := 0; i < ndead && e.bad < 3; i++ {
 		e.run(genCase(r.Fork(), true))
+	}
+	nws, bulk := 1, 6000
+	if o.Thorough() {
+		nws, bulk = 6, 20000
+	}
+	for i := 0; i < nws && e.bad < 3; i++ {
+		e.run(genWalkStall(r.Fork(), bulk))
 	}
 	nacl := 12
 	if o.Thorough() {
